@@ -18,8 +18,12 @@ import (
 	"google.golang.org/protobuf/reflect/protopath"
 	"math"
 	"math/big"
+	"os"
+	"path/filepath"
 	"strings"
 	"time"
+	"verifharness/kmfx"
+	"verifharness/rpcli"
 
 	"github.com/google/gce-tcb-verifier/gcetcbendorsement"
 	"github.com/google/gce-tcb-verifier/gcetcbendorsement/parsepath"
@@ -603,6 +607,58 @@ func main() {
 		if err != nil || !bytes.Equal(got, want) {
 			r.Violation("render/"+name+"-not-exact", "render "+name, "raw "+name+" output differs from the stored bytes", nil)
 		}
+	}
+	// The same renderings through the inspect commands over the real file system, into an output
+	// file that already exists and holds something longer (the file an external tool will read must
+	// hold the exact bytes, not the exact bytes followed by what was there before).
+	if rpcli.Available {
+		dir := filepath.Join(kmfx.ScratchRoot(), "c19-cli")
+		os.MkdirAll(dir, 0o755)
+		endBytes, _ := proto.Marshal(end)
+		endPath := filepath.Join(dir, "endorsement.binarypb")
+		os.WriteFile(endPath, endBytes, 0o644)
+		type cliCase struct {
+			name string
+			args []string
+			want []byte
+		}
+		cases := []cliCase{
+			{"payload", []string{"inspect", "payload", endPath, "--bytesform=bin"}, end.SerializedUefiGolden},
+			{"signature", []string{"inspect", "signature", endPath, "--bytesform=bin"}, end.Signature},
+			{"mask digest", []string{"inspect", "mask", endPath, "--path=digest", "--bytesform=bin"}, golden.Digest},
+			{"mask sev_snp.measurements[1] hex", []string{"inspect", "mask", endPath, "--path=sev_snp.measurements[1]", "--bytesform=hex"}, []byte(hex.EncodeToString(golden.SevSnp.Measurements[1]))},
+		}
+		for ci, cc := range cases {
+			for _, prior := range []int{-1, 0, 4096} {
+				ci, cc, prior := ci, cc, prior
+				id := fmt.Sprintf("render-cli %s out-file-before=%d", cc.name, prior)
+				r.Case(id, func() string {
+					out := filepath.Join(dir, fmt.Sprintf("out-%d-%d", ci, prior))
+					os.Remove(out)
+					if prior >= 0 {
+						os.WriteFile(out, bytes.Repeat([]byte{'Z'}, prior), 0o644)
+					}
+					res := rpcli.RunOS(fx.T0, nil, append(append([]string(nil), cc.args...), "--out="+out)...)
+					r.Eval()
+					r.Validated()
+					got, _ := os.ReadFile(out)
+					switch {
+					case res.Panicked != nil:
+						r.Violation("render/cli-panic", id, fmt.Sprintf("inspect panicked: %v", res.Panicked), nil)
+					case res.Err != nil:
+						r.Outcome("render-cli:refused")
+					case !bytes.Equal(got, cc.want):
+						r.Violation("render/cli-output-file-not-exact", id, fmt.Sprintf("inspect %s wrote a file of %d bytes that is not exactly the %d rendered bytes (the file held %d bytes before)", cc.name, len(got), len(cc.want), prior), nil)
+					default:
+						r.Nontrivial(id)
+						r.Outcome("render-cli:exact")
+					}
+					return fmt.Sprint(len(got), res.Err)
+				})
+			}
+		}
+	} else {
+		r.Degraded("in-process CLI (overlay export of the backend key did not build)")
 	}
 	_ = timeproto.To
 	_ = strings.Join
